@@ -66,7 +66,7 @@ def rule_q(ctx):
         c = puts[0]
         arg = c.args[0] if c.args else None
         elem = L.loop.target.id if isinstance(L.loop.target, ast.Name) else None
-        ok = isinstance(arg, ast.Call) and A.is_name(arg.func, 'submit') and len(arg.args) == 4 \
+        ok = isinstance(arg, ast.Call) and A.is_name(arg.func, L.n_submit) and len(arg.args) == 4 \
             and A.is_name(arg.args[0], L.executor or '\0') and A.is_name(arg.args[1], 'function') \
             and A.is_name(arg.args[2], elem or '\0') and isinstance(arg.args[3], ast.Starred) \
             and A.is_name(arg.args[3].value, 'args') and len(arg.keywords) == 1 and arg.keywords[0].arg is None \
@@ -79,7 +79,7 @@ def rule_q(ctx):
     rep.floor('yields in lazy_parallel_map', len(ys), 1)
     for y in ys:
         v = y.value
-        ok = isinstance(y, ast.Yield) and isinstance(v, ast.Call) and A.is_name(v.func, 'result') and len(v.args) == 1 \
+        ok = isinstance(y, ast.Yield) and isinstance(v, ast.Call) and A.is_name(v.func, L.n_result) and len(v.args) == 1 \
             and isinstance(v.args[0], ast.Call) and isinstance(v.args[0].func, ast.Attribute) \
             and v.args[0].func.attr == 'get' and L.is_q(v.args[0].func.value) and not v.args[0].args \
             and not [kw for kw in v.args[0].keywords if not (kw.arg == 'block' and A.is_const(kw.value, True))]
@@ -118,7 +118,7 @@ def rule_q(ctx):
             p = A.parent(n)
             if isinstance(p, ast.Attribute) and p.attr in ('put', 'get', 'qsize', 'empty', 'get_nowait', 'put_nowait'):
                 continue
-            if isinstance(p, ast.Call) and A.is_name(p.func, 'terminate') and n in p.args:
+            if isinstance(p, ast.Call) and A.is_name(p.func, L.n_terminate) and n in p.args:
                 continue
             bad.append(n)
     rep.ob('Q5', 'parallel_utils.lazy_parallel_map::queue-confined-to-the-consumer-thread', not bad, bad[0] if bad else fn,
@@ -318,7 +318,7 @@ def rule_li(ctx):
     # I: PrefetchDataset.__iter__
     it = pf.own('__iter__').node
     calls = [n for n in A.walk_local(it) if isinstance(n, ast.Call) and A.dotted(n.func) == 'lazy_parallel_map']
-    rep.floor('lazy_parallel_map call sites in PrefetchDataset.__iter__', len(calls), 2)
+    rep.floor('lazy_parallel_map call sites in PrefetchDataset.__iter__', len(calls), 1)
     frozen = None
     for n in A.walk_local(it):
         if isinstance(n, ast.Assign) and isinstance(n.value, ast.Call) and isinstance(n.value.func, ast.Attribute) \
@@ -403,10 +403,12 @@ def rule_li(ctx):
         b = flow.bind(c, ctx.repo.module('parallel_utils').functions['lazy_parallel_map'], skip_self=False)
         f = b.args.get('function')
         gsrc = b.args.get('generator')
-        okf = A.is_self_attr(f, 'map_function') or (isinstance(f, ast.Call) and (A.dotted(f.func) or '').endswith('partial')
-                                                     and any(A.is_self_attr(k.value, 'map_function') for k in f.keywords))
-        okg = A.is_self_attr(gsrc, INPUT_ATTR) or (isinstance(gsrc, ast.Call) and isinstance(gsrc.func, ast.Attribute)
-                                                   and gsrc.func.attr == '__iter__' and A.is_self_attr(gsrc.func.value, INPUT_ATTR))
+        okf = f is not None and flow.all_defs_satisfy(f, pi, lambda e: A.is_self_attr(e, 'map_function') or (
+            isinstance(e, ast.Call) and (A.dotted(e.func) or '').endswith('partial')
+            and any(A.is_self_attr(k.value, 'map_function') for k in e.keywords)))
+        okg = gsrc is not None and flow.all_defs_satisfy(gsrc, pi, lambda e: A.is_self_attr(e, INPUT_ATTR) or (
+            isinstance(e, ast.Call) and isinstance(e.func, ast.Attribute)
+            and e.func.attr == '__iter__' and A.is_self_attr(e.func.value, INPUT_ATTR)))
         ret = isinstance(A.parent(c), ast.Return)
         for pname, attr in (('max_workers', 'num_workers'), ('backend', 'backend'), ('buffer_size', 'buffer_size')):
             e = b.args.get(pname)
@@ -416,7 +418,7 @@ def rule_li(ctx):
                        pname, A.short(e) if e is not None else '<default>', attr))
         rep.ob('I', 'core.ParMapDataset.__iter__::maps-map_function-over-the-input', okf and okg and ret, c,
                '' if okf and okg and ret else 'parallel map must map self.map_function over the input iteration and return it')
-    rep.floor('lazy_parallel_map call sites in ParMapDataset.__iter__', len(pcalls), 2)
+    rep.floor('lazy_parallel_map call sites in ParMapDataset.__iter__', len(pcalls), 1)
     # helper for the paired map keeps key with its own example
     h = pm.own('_with_key_map_function')
     if h is not None:
